@@ -222,8 +222,8 @@ class C20(core.Check):
                   "set_scrollpos(any integer)), every behaviour of the wrapped widget (any canvas size, cursor, key/mouse answers) and "
                   "every view with height >= 1: render never raises; it shows exactly rows [p, p+height) of the wrapped widget's full "
                   "rendering with 0 <= p <= max(0, total - height), blank rows only when total < height, blank columns only when the "
-                  "content is narrower, columns cut only when it is wider; whenever the render has to trim (content higher or wider than "
-                  "the view) the position reported afterwards is that p, the pending action is consumed, and re-rendering is stable; "
+                  "content is narrower, columns cut only when it is wider; after EVERY render (fitting or trimming) the position reported "
+                  "is that p, no scroll action stays pending, and re-rendering is stable; "
                   "the translated _adjust_trim_top keeps 0 <= p <= max(0, rows - height) for every stored position/action/cursor.  "
                   "ScrollBar over Scrollable, every state, heights < 2^53: drawn iff the content needs more rows than the view at the full "
                   "width, never raises, the wrapped widget gets maxcol - bar width, top/thumb/bottom are >= 0 (thumb >= 1) and sum to the "
@@ -233,10 +233,9 @@ class C20(core.Check):
                   "position by one.  The binary64 operations in these theorems are an exact rational model whose round-to-nearest-even is "
                   "PROVED monotone, exact on integers < 2^53, positivity preserving and within 2^-53 relative error (no IEEE law is "
                   "assumed); that this model is what hardware doubles do is a kernel-checked grid comparison with Coq's primitive floats "
-                  "plus the exact correspondence with CPython on every run.  REFUTED (scroll_reports_p_refuted; genuine defect, recorded "
-                  "as a known finding): when the content fits the view, render returns before _adjust_trim_top, so get_scrollpos() can "
-                  "report a stale or never-clamped p outside [0, 0] although rows 0.. are shown (scroll_reports_p_partial covers every "
-                  "render that trims).  Correspondence/oracle only: row translation of mouse clicks, cache invalidation, the exact "
+                  "plus the exact correspondence with CPython on every run.  (The early-return defect this check found - stale "
+                  "get_scrollpos() when the content fits - was repaired in /repo by fix: 886d649; scroll_reports_p is now a theorem and "
+                  "the former counterexamples are regression inputs in corpus/C20.)  Correspondence/oracle only: row translation of mouse clicks, cache invalidation, the exact "
                   "key->action table, ListBox under ScrollBar (relative mode: oracle checks 'no exception, well-formed bar when the "
                   "content overflows'; no model, those cases add nothing to the correspondence count).  Not covered: "
                   "automove_cursor_on_scroll.")
